@@ -21,6 +21,7 @@ type Obligation struct {
 	Goal      string
 	ExpectSat bool
 	NoRetry   bool // known finding: one short attempt, no retry
+	qfSat       bool // refuted when the engine's quantified lemmas are left out (see Solve)
 	SoftTimeout bool // claimed only when refuted: an undecided answer is a note, not a violation
 	Pos       string
 	Text      string
